@@ -431,7 +431,8 @@ fn soup_bytes(rng: &mut Rng, n: u64, c: u32, l: u32, utf8: bool) -> Vec<u8> {
             0 => bytes.push(rng.below(256) as u8),
             1 => bytes.push(rng.below(32) as u8),
             2 => bytes.push(0x80 + rng.below(32) as u8),
-            3 => bytes.extend_from_slice(*rng.pick(&[&b"\x1b["[..], b"\x1b]", b"\x1b", b"\x9b", b"\x9d", b"\x1b(", b"\x1b#", b"\x1b%", b"\x18", b"\x1a", b"\x9c", b"\x1b\\", b"\x07"])),
+            3 => bytes.extend_from_slice(*rng.pick(&[&b"\x1b["[..], b"\x1b]", b"\x1b", b"\x9b", b"\x9d", b"\x1b(", b"\x1b#", b"\x1b%", b"\x18", b"\x1a", b"\x9c", b"\x1b\\", b"\x07",
+                                                         b"\x1b%@", b"\x1b%G", b"\x1b%8", b"\x0e", b"\x0f", b"\x1b)0", b"\x1b(U"])),
             4 => bytes.extend_from_slice(*rng.pick(&[&b";"[..], b"?", b"$", b" ", b">", b"0", b"1", b"9", b"99999999999999999999999", b"5", b"2"])),
             5 => {
                 // a well-formed multi-byte character, possibly truncated
